@@ -520,6 +520,24 @@ where
     None
 }
 
+/// scale probe: a larger window driven by a long deterministic sequence over the EXACT alphabet
+/// (every square and window sum still exact), checked with the same exact oracle as the merged
+/// run, including reset in the middle
+fn exact_long_run<F: RF>(n: usize, steps: usize) -> Option<Bad>
+where
+    F::Float: Copy + Debug,
+{
+    let alpha = F::alphabet();
+    let mut s = Sys::<F>::new(n, true);
+    for t in 0..steps {
+        let a = if t == steps / 2 { Act::Reset } else if t % 11 == 10 { Act::Current } else if t % 5 == 4 { Act::NextSq(((t * 7 + t / 3) % alpha.len()) as u8) } else { Act::Next(((t * 7 + t / 3) % alpha.len()) as u8) };
+        if let Err(e) = s.step(&alpha, a) {
+            return Some((e.0, format!("window {n}, step {t} of a long exact-alphabet run: {}", e.1)));
+        }
+    }
+    None
+}
+
 /// long deterministic non-dyadic run (one execution; labelled as such)
 fn drift_run<F: RF>(n: usize, steps: usize) -> Option<Bad>
 where
@@ -759,6 +777,27 @@ fn main() {
         guard::leave();
     });
     ctx.add_evals((djobs.len() * steps) as u64);
+    // scale probes: windows 5, 8, 16, 64 with the exact oracle
+    let sjobs: Vec<(usize, usize)> = (0..5).flat_map(|t| [5usize, 8, 16, 64].into_iter().map(move |n| (t, n))).collect();
+    sjobs.par_iter().for_each(|&(t, n)| {
+        let name = ["[f32;1]", "[f32;2]", "[f64;1]", "[i16;2]", "[u8;1]"][t];
+        let case = json!({"sys":"exact_long","frame":name,"n":n});
+        guard::enter(&case.to_string());
+        let steps = 6 * n + 40;
+        let r = match t {
+            0 => exact_long_run::<[f32; 1]>(n, steps),
+            1 => exact_long_run::<[f32; 2]>(n, steps),
+            2 => exact_long_run::<[f64; 1]>(n, steps),
+            3 => exact_long_run::<[i16; 2]>(n, steps),
+            _ => exact_long_run::<[u8; 1]>(n, steps),
+        };
+        if let Some((k, m)) = r {
+            ctx.violation(&k, case, m, None);
+        }
+        guard::leave();
+    });
+    ctx.add_evals(sjobs.iter().map(|j| 6 * j.1 as u64 + 40).sum());
+    ctx.rule("scale probes — windows 5, 8, 16 and 64, five frame formats, a long deterministic sequence over the exact alphabet with a reset in the middle, same exact oracle as the merged run (single executions per window, labelled)");
     ctx.set("drift_runs", json!(djobs.len()));
     ctx.set("drift_steps_each", json!(steps));
 
